@@ -182,11 +182,6 @@ def jdk_classes() -> list[dict]:
 # worker: one program
 # --------------------------------------------------------------------------------------------------------
 
-def make_case(seed, pi):
-    r = random.Random(f"{seed}/c07/{pi}")
-    return r
-
-
 def _worker(args):
     kind, seed, pi, base, payload = args
     base = Path(base)
@@ -295,13 +290,6 @@ def decl_of_class(cls: str, model_out: list[dict]):
     return best
 
 
-def failure_class(what: str) -> str:
-    w = what.split(" ")[0]
-    if w.startswith("Java_"):
-        return w
-    return w.split(".")[0] if "." in w and "/" in w else w
-
-
 def run(ctx):
     ctx.coverage["rule"] = ("one case = one generated declaration of a valid program (java + jni generated, Java compiled with javac and read with "
                             "javap -s -p) ; distinct = (declaration kind, targets, member shape, configuration class) ; non-trivial = the declaration "
@@ -339,8 +327,11 @@ def run(ctx):
                    {"correspondence": "c07.model vs extracted lookups/exports/javap members; c02.types (jni attributes) vs real marshalling objects",
                     "first": first, "count": len(allb)}, no_failing_input=True)
     ctx.assumptions += [gen_api.FEATURES,
-                        "theorem hypotheses (config domain): jniClassNameIsJavaName, jniMethodNameIsJavaName, noEscapedCharInNativeName, noJavaBaseRecord, "
-                        "supportPackageIsDefault; outside them the real code is run and failures are listed as findings"]
+                        "theorem domain Dom: jniClassNameIsJavaName (jni.identifier.class_name gives the Java class names, also for every type in the "
+                        "member signatures) and noJavaBaseRecord are conditions outside which the real code is run and its failures are listed "
+                        "findings; wf and staticOnlyOnCppInterfaces are guaranteed by the front end (C05); tables = generated obligation jniOK",
+                        "a lookup 'resolves' = javap -s -p (or the source-level extraction) shows the member with that name, descriptor and static-ness in "
+                        "the class or a superclass; no JVM is started"]
 
 
 def evaluate(ctx, rows, results):
